@@ -222,7 +222,32 @@ func c18(r *Run) {
 		vb := callsTo(rp, func(n string) bool { return strings.HasSuffix(n, "snow.Chain).VerifyBlock") })
 		ab := callsTo(rp, func(n string) bool { return strings.HasSuffix(n, "snow.Chain).AcceptBlock") })
 		nv := findEffects(rp, "call event.NotifyAll(*, *, p0.verifiedSubs)")
-		na := findEffects(rp, "call event.NotifyAll(*, *, p0.acceptedSubs)")
+		var na, naStart []*effect
+		for _, e := range findEffects(rp, "call event.NotifyAll(*, *, p0.acceptedSubs)") {
+			if h, _ := innermostLoop(e.Ins.Block()); h != nil {
+				na = append(na, e)
+			} else {
+				naStart = append(naStart, e)
+			}
+		}
+		// the starting block is delivered too when anything is re-processed (its own notification may have been cut off by the crash)
+		okStart := len(naStart) == 1 && strings.Contains(naStart[0].Str, "NotifyAll(p1, p4, p0.acceptedSubs)") && len(ab) == 1 &&
+			hasMatch(naStart[0].Conds(), "(*).GetHeight(p3) < (*).GetHeight(p2)")
+		if okStart {
+			// conditioned on nothing but the heights / identities of the three blocks
+			for _, c := range naStart[0].Conds() {
+				if !strings.Contains(c, ").GetHeight(p") && !strings.Contains(c, ").GetID(p") {
+					okStart = false
+				}
+			}
+		}
+		if okStart {
+			// it comes before the first re-processed block is accepted (same condition as entering the loop)
+			before, _ := pathExists(after(naStart[0].Ins), isInstr(ab[0]), nil, nil)
+			back, _ := pathExists(after(ab[0]), isInstr(naStart[0].Ins), nil, nil)
+			okStart = before && !back
+		}
+		r.check(okStart, "C18.R4", "reprocess:start-block-delivered", w.rel(rp.Pos()), "", "re-processing does not deliver its starting accepted block to the accepted subscribers: a block whose state was committed right before a crash, with later blocks already indexed, is never delivered")
 		if len(vb) == 1 && len(ab) == 1 && len(nv) == 1 && len(na) == 1 {
 			r.successGuards(w, "C18.R4", "reprocess:notify-verified-after-VerifyBlock", vb[0], nv[0].Ins)
 			r.successGuards(w, "C18.R4", "reprocess:AcceptBlock-after-notify-verified", nv[0].Ins.(ssa.CallInstruction), ab[0])
@@ -236,6 +261,38 @@ func c18(r *Run) {
 
 	// R6: the accept pipeline commits state before notifying subscribers, so a crash between the two is repaired only by
 	// the unconditional start-up notification of the last accepted block
+	// R7: after an unclean stop merkledb rebuilds and ends with Compact(nil, nil); the database wrapper has to give the
+	// nil limit the meaning of the database interface (after all keys), pebble itself reads it as "before all keys"
+	r.rule("C18.R7", "K6", "the pebble wrapper never forwards a nil compaction limit", 1)
+	if cp := r.fn(w, "C18.R7", "(*"+H+"/internal/pebble.Database).Compact"); cp != nil {
+		okk := false
+		for _, c := range callsTo(cp, func(n string) bool { return strings.HasSuffix(n, "cockroachdb/pebble.DB).Compact") }) {
+			lim := c.Common().Args[2]
+			if phi, ok := lim.(*ssa.Phi); ok {
+				// the parameter edge is taken only where limit != nil
+				okk = true
+				for i, e := range phi.Edges {
+					if e != ssa.Value(cp.Params[2]) {
+						continue
+					}
+					pred := phi.Block().Preds[i]
+					si := 0
+					for k, sx := range pred.Succs {
+						if sx == phi.Block() {
+							si = k
+						}
+					}
+					cs := condStrings(ctrlCondsEdge(pred, si))
+					if !hasStr(cs, "nil != p2") && !hasStr(cs, "p2 != nil") {
+						okk = false
+					}
+				}
+			} else if lim != ssa.Value(cp.Params[2]) {
+				okk = true
+			}
+		}
+		r.check(okk, "C18.R7", "pebble.Compact:nil-limit-means-after-all-keys", w.rel(cp.Pos()), "", "a nil compaction limit is forwarded to pebble, which fails with 'start is not less than end': merkledb's rebuild after an unclean shutdown ends with Compact(nil, nil), so every restart after a crash fails")
+	}
 	r.rule("C18.R6", "K1", "start-up re-delivers the last accepted block to the accepted subscribers on every successful path (at-least-once across a crash)", 2)
 	sini := r.fn(w, "C18.R6", nmSVM+"Initialize")
 	if sini != nil {
